@@ -64,6 +64,24 @@ def _subst(expr: ast.AST, binds: dict) -> ast.AST:
     return S().visit(copy.deepcopy(expr))
 
 
+def _fold(pm: PM, module: str, expr: ast.AST) -> ast.AST:
+    """replace the outermost sub-expressions that evaluate to a scalar constant by that constant"""
+    class F(ast.NodeTransformer):
+        def generic_visit(self, n):
+            if isinstance(n, ast.expr) and not isinstance(n, (ast.Constant, ast.Name, ast.Starred)) and not isinstance(getattr(n, "ctx", None), ast.Store):
+                try:
+                    v = const_expr(pm, module, n)
+                except Exception:
+                    v = NOC
+                if v is not NOC and isinstance(v, (str, int, float, bool, type(None))):
+                    return ast.copy_location(ast.Constant(value=v), n)
+            return super().generic_visit(n)
+
+        def visit(self, n):
+            return self.generic_visit(n)
+    return F().visit(expr)
+
+
 def _bind_target(target: ast.AST, value, out: dict) -> bool:
     if isinstance(target, ast.Name):
         out[target.id] = value
@@ -124,7 +142,7 @@ def expand_keywords(pm: PM, fi, call: ast.Call):
                     if not isinstance(name, str):
                         ok = False
                         break
-                    pairs.append((name, _subst(v.value, binds)))
+                    pairs.append((name, _fold(pm, fi.module, _subst(v.value, binds))))
                 complete = complete and ok
                 continue
         complete = False
